@@ -366,6 +366,8 @@ class BytesMixin(object):
       return mk_bytes(atoms)
     if name == 'braw':
       return mk_bytes([('raw', coerce(args[0], ANY) if args[0].ty.k != 'int' else args[0].t, num_term(args[1], False))])
+    if name == 'dyn_attr':
+      return V(ANY, z3.Function('dyn_attr', I, I, I)(args[0].t, args[1].t))
     if name == 'split_part':
       return V(STR, z3.Function('split_part', I, I, I, I)(args[0].t, args[1].t, num_term(args[2], False)))
     if name == 'split_count':
@@ -426,4 +428,4 @@ class BytesMixin(object):
 
 
 BYTE_SPEC_FNS = ('bi8', 'bu8', 'bi16', 'bu16', 'bu24', 'bi32', 'bu32', 'bi64', 'bcat', 'braw', 'bempty', 'blen', 'beq',
-                 'written', 'content', 'utf8', 'bmark', 'since', 'sum_of', 'crc_of', 'summands', 'stream_front', 'bslice', 'split_part', 'split_count', 'str_to_int')
+                 'written', 'content', 'utf8', 'bmark', 'since', 'sum_of', 'crc_of', 'summands', 'stream_front', 'bslice', 'split_part', 'split_count', 'str_to_int', 'dyn_attr')
